@@ -329,6 +329,8 @@ func runC08(r *core.Run) {
 			inspect()
 			s.DirectedUnknownMint()
 			inspect()
+			s.DirectedRotation() // each kind of operation once as the first after an unseen rotation
+			inspect()
 		}
 		known.mu.Lock()
 		nr := len(known.rs)
